@@ -1048,13 +1048,15 @@ func (l *ColumnLayout) GetColumn(index int) *Column {
 }
 
 // GetFragmentsInReadingOrder returns all fragments ordered for reading
-// (left column first, then right column, each column top-to-bottom)
+// (spanning content such as titles first, as in GetText; then left column
+// first, then right column, each column top-to-bottom)
 func (l *ColumnLayout) GetFragmentsInReadingOrder() []text.TextFragment {
 	if l == nil {
 		return nil
 	}
 
 	var result []text.TextFragment
+	result = append(result, l.SpanningFragments...)
 	for _, col := range l.Columns {
 		result = append(result, col.Fragments...)
 	}
